@@ -135,21 +135,25 @@ func tpeerNum(p peer.ID) int {
 // ---- ops ----
 
 // tpeers <snap;snap;…> : membership snapshots fed to psTopic.WatchPeers, e.g. 1,2;2,3;-;3
-func (w *World) tPeers(toks []string) {
-	bus := newFakeBus()
-	self := tpeer(0)
-	api := &transportAPI{ps: &fakePubSubAPI{bus: bus, id: self}, key: &fakeKeyAPI{id: self}}
-	ps := pubsubcoreapi.NewPubSub(api, self, 300*time.Microsecond, nil, nil)
-	topic := "t"
+func parseSnapList(s string) [][]peer.ID {
 	var snaps [][]peer.ID
-	for _, s := range strings.Split(toks[1], ";") {
+	for _, x := range strings.Split(s, ";") {
 		var snap []peer.ID
-		for _, x := range ints(s) {
-			snap = append(snap, tpeer(x))
+		for _, n := range ints(x) {
+			snap = append(snap, tpeer(n))
 		}
 		snaps = append(snaps, snap)
 	}
+	return snaps
+}
+
+// watchOnce: one WatchPeers watcher on `topic` while the underlying pubsub answers `snaps` one poll after
+// the other (then keeps answering the last one); returns what it reported and what Peers() says at the end.
+func (w *World) watchOnce(ps iface.PubSubInterface, bus *fakeBus, topic string, snaps [][]peer.ID) (string, string) {
+	bus.mu.Lock()
 	bus.snaps[topic] = snaps
+	bus.polls[topic] = 0
+	bus.mu.Unlock()
 	t, _ := ps.TopicSubscribe(w.ctx, topic)
 	ctx, cancel := context.WithCancel(w.ctx)
 	ch, _ := t.WatchPeers(ctx)
@@ -198,7 +202,23 @@ func (w *World) tPeers(toks []string) {
 		ms = append(ms, fmt.Sprint(tpeerNum(m)))
 	}
 	sort.Strings(ms)
-	w.printf("tevents %s members=%s\n", joinOrDash(evs), joinOrDash(ms))
+	return joinOrDash(evs), joinOrDash(ms)
+}
+
+// tpeers <snaps> [<snaps2>]: a watcher over the first list of snapshots; with a second list, a SECOND
+// watcher on the same topic of the same adapter after the first one ended (a store closed and opened
+// again on one instance): it must be told about the peers that are there, like the first one was.
+func (w *World) tPeers(toks []string) {
+	bus := newFakeBus()
+	self := tpeer(0)
+	api := &transportAPI{ps: &fakePubSubAPI{bus: bus, id: self}, key: &fakeKeyAPI{id: self}}
+	ps := pubsubcoreapi.NewPubSub(api, self, 300*time.Microsecond, nil, nil)
+	evs, ms := w.watchOnce(ps, bus, "t", parseSnapList(toks[1]))
+	w.printf("tevents %s members=%s\n", evs, ms)
+	if len(toks) > 2 {
+		evs, ms = w.watchOnce(ps, bus, "t", parseSnapList(toks[2]))
+		w.printf("tevents2 %s members=%s\n", evs, ms)
+	}
 }
 
 // hxe is hx with the empty payload written "." (so that a list holding one empty payload is not "-")
